@@ -93,12 +93,12 @@ class Emitter:
             o.append('func ref_%s(x %s) *RVal { return %s }' % (h, gt, SCALAR_REF[k] % 'x'))
             o.append('func walk_%s(x %s, w *walker, name string, nocopy bool) {}' % (h, gt))
         elif k == 'string':
-            o.append('func fill_%s(p *string, name string, depth int) { *p = vrt.String(name, pick(name+"#", boundS+1)) }' % h)
+            o.append('func fill_%s(p *string, name string, depth int) { *p = vrt.String(name, strLen(name)) }' % h)
             o.append('func ref_%s(x string) *RVal { return rStr(x) }' % h)
             o.append('func walk_%s(x string, w *walker, name string, nocopy bool) { w.str(x, name, nocopy) }' % h)
         elif k == 'binary':
             o.append('''func fill_%s(p *[]byte, name string, depth int) {
-	c := pick(name+"#", boundS+2)
+	c := binLen(name)
 	if c == 0 {
 		*p = nil
 		return
@@ -110,7 +110,7 @@ class Emitter:
         elif k in ('list', 'set'):
             eh = self.hname(t[1])
             o.append('''func fill_%s(p *%s, name string, depth int) {
-	c := pick(name+"#", boundL+2)
+	c := listLen(name)
 	if c == 0 {
 		*p = nil
 		return
